@@ -899,5 +899,8 @@ for _p in ("C09",):
 PROPS["C08"]["rules"] = PROPS["C08"]["rules"] + [rules_handles.rule_cross_object_compare]
 PROPS["C08"]["explanation"] += " (SELFCMP) see C13: the same-file guard of Vinsert compares fields of two different objects."
 
+PROPS["C02"]["rules"] = PROPS["C02"]["rules"] + [rules_dd.rule_contiguous_fallback_excludes_external]
+PROPS["C02"]["explanation"] += " (EXTNOTHERE) a data-information routine with a contiguous fallback sets the external storage kind aside first."
+
 NOT_APPLICABLE = {}
 
